@@ -73,21 +73,18 @@ def real_tokens(text):
     return out, None
 
 
+GUARD_DUMP = ast.dump(ast.parse("__name__ == '__main__'", mode="eval").body)
+
+
 def parser_oracle(text):
     """What `suppress_main_guard` learns from the parser: None when `ast.parse` raises SyntaxError or
-    ValueError, else the (lineno, end_lineno) of the top-level `if` statements, in source order."""
+    ValueError, else (lineno, end_lineno, is the test `__name__ == '__main__'`) of the top-level `if` statements, in
+    source order."""
     try:
         body = ast.parse(text).body
     except (SyntaxError, ValueError):
         return None
-    return [[n.lineno, n.end_lineno] for n in body if isinstance(n, ast.If)]
-
-
-def guard_match(Cleanup):
-    """The compiled pattern's `match`, the default argument of suppress_main_guard."""
-    d = Cleanup.suppress_main_guard.__defaults__
-    m = d[0] if d else None
-    return m if getattr(m, "__name__", "") == "match" else None
+    return [[n.lineno, n.end_lineno, int(ast.dump(n.test) == GUARD_DUMP)] for n in body if isinstance(n, ast.If)]
 
 
 class _Captured(Exception):
@@ -195,8 +192,6 @@ def regex_streams(ctx, drv, Cleanup):
     plans = [
         ("first_comments", Cleanup.suppress_first_comments,
          ["#", "x", "\n", " ", "# paroxython: a", "paroxython", ":", "#PAROXYTHON\t:"], 5 if quick else 6),
-        ("guard_line", (lambda m: (lambda t: "1" if m(t) else "0"))(guard_match(Cleanup)),
-         ["if ", " ", "__name__", "==", "'", "__main__", ":", "\n", "x"], 4 if quick else 5),
         ("sys_path", Cleanup.suppress_sys_path_injection,
          [inj, inj[:-1], "x", "\n", " "], 5 if quick else 7),
         ("normalize", Cleanup.normalize_paroxython_comments,
@@ -208,17 +203,7 @@ def regex_streams(ctx, drv, Cleanup):
         ("strip", lambda s: s.strip(), [" ", "\n", "x", "\t", "\x0b"], 5 if quick else 7),
     ]
     for name, f, alphabet, maxlen in plans:
-        if name == "guard_line" and guard_match(Cleanup) is None:
-            # the compiled pattern is not reachable as a default argument (an implementation detail): the line
-            # pattern is then tied by behaviour only (`guard:programs`), not a broken correspondence
-            ctx.dist("regex:guard_line:skipped-no-match-callable")
-            continue
         texts = list(seqs(alphabet, maxlen))
-        if name == "guard_line":
-            tpl = guard_templates()
-            if quick:
-                tpl = ctx.rng.sample(tpl, 20000)
-            texts += tpl
         # random longer sequences over the same alphabet
         for _ in range(2000 if quick else 20000):
             texts.append("".join(ctx.rng.choice(alphabet) for _ in range(ctx.rng.randrange(maxlen + 1, maxlen + 8))))
@@ -243,8 +228,6 @@ def compare_pass(ctx, drv, name, f, texts, exhaustive_upto=None, alphabet=None):
             r = f(t)
             impl = [r[0], r[1]] if isinstance(r, tuple) else r
             nontrivial = (impl != t) if not isinstance(impl, list) else impl[1] > 0
-            if name == "guard_line":
-                nontrivial = impl == "1"
             changed += nontrivial
             ctx.count(stream, t, nontrivial=nontrivial)
             if impl != m:
@@ -316,7 +299,7 @@ def loop_batch(drv, cases, chunk=500):
 def synthetic_tokens(rng, n):
     kinds = ["COMMENT", "STRING", "NEWLINE", "NL", "INDENT", "DEDENT", "OTHER", "OTHER", "FSTRING_MIDDLE"]
     strings = {
-        "FSTRING_MIDDLE": ["{", "a}", "b", "{}{", ""],
+        "FSTRING_MIDDLE": ["{", "a}", "b", "{}{", "", "\\N{DIGIT ONE}", "{\\N{X Y}}", "\\N{", "a\\N{b}c}", "\\N{a{b}", "\\\\N{"],
         "COMMENT": ["# c", "# paroxython: a", "#Paroxython :b  ", "#", "# paroxython", "#\tPAROXYTHON\t:\tz # paroxython:q"],
         "STRING": ['"d"', "'''a\n\nb'''", "''"],
         "NEWLINE": ["\n", ""], "NL": ["\n", ""], "INDENT": ["    ", "  "], "DEDENT": [""],
@@ -535,6 +518,11 @@ class ProgGen:
         if self.shapes and r.random() < 0.25:
             self.used.add("fstring-doubled-brace")
             return r.choice(['f"{{a}}"', 'f"{{{a}}}"', 'f"x{{"', "f'}}{a}'"])
+        if self.shapes and r.random() < 0.2:
+            self.used.add("fstring-named-escape")
+            return r.choice(['f"\\N{DIGIT ONE}"', 'f"\\N{DIGIT ONE}{a}"', 'f"{{\\N{BULLET}}}{a!r:>{b}}"', 'rf"\\N{a}{{b}}"',
+                             'f"{a}\\N{LATIN SMALL LETTER A}{{"', "f'{a:\\N{BULLET}>{b}}'", 'f"""\\N{DIGIT ONE} {a}"""', 'Rf"\\N{b}"',
+                             'f"\\\\N{{x}}"'])
         return r.choice(['f"{a}"', 'f"a{b}c"', 'f"{a!r:>{b}}"', "f'{a + 1}'"])
 
     def atom(self):
@@ -656,6 +644,10 @@ class ProgGen:
             sub = ind + r.choice([4, 4, 4, 2])
             if x < 0.72:
                 test = self.continuation(ind) if r.random() < 0.2 else self.expr(1)
+                if self.shapes and r.random() < 0.08:
+                    self.used.add("looks-like-main-guard")
+                    test = r.choice(['__name__ == "__main__" or a', '__name__ != "__main__"', '"__main__" == __name__', 'not __name__ == "__main__"',
+                                     '__name__ == "__main__"' if ind > 0 else '__name__ == "main"', '__name__ == "__main__" == True'])
                 items.append(("code", ind, f"if {test}:", None))
                 items += self.block(sub, depth + 1, in_def, in_loop)
                 if r.random() < 0.4:
@@ -714,10 +706,24 @@ class ProgGen:
         if r.random() < 0.15:
             items.append(("code", 0, '__import__("sys").path[0:0] = ["programs"]', None))
         items += self.block(0, 0, n=r.randrange(1, 5))
+        if self.shapes and r.random() < 0.12:
+            self.used.add("injection-line-late")
+            self.late_injection = r.choice(["before-guard", "last"])
+        else:
+            self.late_injection = None
+
         def guard_header():
+            if self.shapes and r.random() < 0.4:
+                self.used.add("main-guard-unusual-layout")
+                return r.choice(['if\t__name__ == "__main__":', 'if __name__\t==\t"__main__":', 'if __name__ == \\\n        "__main__":',
+                                 'if __name__ \\\n== "__main__":', 'if (__name__ == "__main__"):', "if __name__ == \'\'\'__main__\'\'\':",
+                                 'if __name__   ==   "__main__"   :', 'if __name__ == """__main__""":', 'if (__name__ ==\n        "__main__"):',
+                                 'if __name__ == "__ma" "in__":'])
             return r.choice(['if __name__ == "__main__":', "if __name__=='__main__':", 'if  __name__  ==  "__main__" :'])
 
-        if r.random() < 0.3:
+        if self.late_injection == "before-guard":
+            items.append(("code", 0, '__import__("sys").path[0:0] = ["late"]', None))
+        if r.random() < 0.3 or self.late_injection == "before-guard":
             kind = r.random()
             if kind < 0.15:
                 self.used.add("one-line-main-guard")
@@ -728,6 +734,10 @@ class ProgGen:
                 if r.random() < 0.2:
                     self.used.add("multi-line-string-in-main-guard")
                     items.append(("code", 4, f'{self.name()} = """line 1\nline 2 at column 0\n\n    line 4"""', None))
+                if self.shapes and r.random() < 0.15:
+                    self.used.add("main-guard-with-elif")
+                    items.append(("code", 0, f"elif {self.name()}:", None))
+                    items += self.block(4, 2, n=1)
                 if r.random() < 0.25:
                     self.used.add("main-guard-with-else")
                     items.append(("code", 0, "else:", None))
@@ -744,6 +754,8 @@ class ProgGen:
                     items += self.block(4, 2, n=1)
                     if r.random() < 0.5:
                         items += self.block(0, 2, n=1)
+        if self.late_injection == "last":
+            items.append(("code", 0, '__import__("sys").path[0:0] = ["last"]  ', None))
         return items
 
     # -- layout
@@ -819,8 +831,9 @@ class ProgGen:
             elif level > 0 and r.random() < level * 0.6 and "\\\n" not in text and '"""line' not in text:
                 line += r.choice(["  # c", " #", "\t# lorem ipsum", "  # paroxython"])
             lines.append(line)
-        lines += self.noise_lines(0, level)
-        end = r.choice(["\n", "\n", "", "\n\n"]) if level > 0 else "\n"
+        if not (getattr(self, "late_injection", None) and r.random() < 0.7):
+            lines += self.noise_lines(0, level)
+        end = r.choice(["\n", "\n", "", "", "\n\n"])
         return "\n".join(lines) + end
 
 
@@ -935,6 +948,9 @@ def clauses(drv, src):
     if valid:
         if norm_ast(out) != norm_ast(src):
             bad.append(("same-ast-modulo-noise", None))
+        left = [ast.unparse(s)[:60] for s in ast.parse(out).body if is_main_guard(s) or is_injection(s)]
+        if left:
+            bad.append(("main-guard-and-injections-dropped", left))
     sp = drv.call("c13.spec.text", texts=[out])["r"][0]
     if not sp["noBlankLine"]:
         bad.append(("no-blank-line", None))
@@ -1373,6 +1389,11 @@ def property_stream(ctx, drv, stream, cases, seen_sigs):
 
 
 HAND_PICKED = [
+    'x = 1\n__import__("sys").path[0:0] = ["a"]\nif __name__ == "__main__":\n    pass', 'x = 1\n__import__("sys").path[0:0] = ["a"]',
+    '__import__("sys").path[0:0] = ["a"]', 'if\t__name__ == "__main__":\n    pass\nx = 1\n', 'if __name__ == \\\n  "__main__":\n    pass\nx = 1\n',
+    'if (__name__ == "__main__"):\n    main()\nx = 1\n', "if __name__ == \'\'\'__main__\'\'\':\n    main()\nelif y:\n    z = 1\nx = 1\n",
+    'if __name__ == "__main__" or x:\n    main()\ny = 1\n', 'def f():\n    if __name__ == "__main__":\n        g()\n', 'if __name__ != "__main__":\n    y = 2\n',
+    'x = f"\\N{DIGIT ONE}"\n', 'x = f"\\N{DIGIT ONE}{a}{{b}}{c:>{w}}"\n', 'x = rf"\\N{a}{{b}}"\n', 'x = f"""\\N{BULLET}\n{a}"""\n', 'x = f"\\\\N{{x}}"\n',
     'def f():\n    "doc" # c\n    return 1\n', 'def f():\n    "doc" # paroxython: foo\n    return 1\n',
     'def f():\n    """Lorem.\n\n    Ipsum.\n    """  # c\n    return 1\n', 'def f(): "d"\n', '# x # paroxython: foo\ny = 1\n',
     'def f():\n    pass; pass\n    x = 1\n', 'def f():\n    "d" # c\n', 'class A:\n    "doc"  # c\n\n    # d\n    x = 1\n',
@@ -1418,7 +1439,6 @@ def run(ctx):
     CLEAN = lambda s: str(Cleanup("full").run(s))  # noqa
     PASS_IMPL.update({
         "first_comments": Cleanup.suppress_first_comments,
-        "guard_line": (lambda m: (lambda t: "1" if m(t) else "0"))(guard_match(Cleanup)),
         "sys_path": Cleanup.suppress_sys_path_injection, "normalize": Cleanup.normalize_paroxython_comments,
         "blank_lines": Cleanup.suppress_blank_lines, "useless_pass": Cleanup.suppress_useless_pass_statements,
         "strip": lambda s: s.strip(), "tabs": lambda s: s.replace("\t", "    "),
@@ -1572,7 +1592,6 @@ def replay(ctx, path):
             return 0
         if kind == "regex-pass":
             f = {"first_comments": pp.Cleanup.suppress_first_comments,
-                 "guard_line": (lambda m: (lambda t: "1" if m(t) else "0"))(guard_match(pp.Cleanup)),
                  "sys_path": pp.Cleanup.suppress_sys_path_injection, "normalize": pp.Cleanup.normalize_paroxython_comments,
                  "blank_lines": pp.Cleanup.suppress_blank_lines, "useless_pass": pp.Cleanup.suppress_useless_pass_statements}.get(obj["pass"])
             print("text  :", repr(obj["text"]))
